@@ -13,7 +13,11 @@
    * The decoded metafile is a [value] of Model/Bencode.v (str/bytes collapsed, dictionaries in file
      order).  A Python exception of any kind (KeyError, TypeError, FileNotFoundError ...) is None.
      Lengths must be integers (BInt); other shapes are outside the model (None).
-   * Logging and the `paths` list (a projection of `fileinfo`) are omitted. *)
+   * Logging and the `paths` list (a projection of `fileinfo`) are omitted.
+   * `"attr": item.get("attr")` of a v1 multi-file entry (the repair of D39) is recorded as [fi_attr]: None when the key
+     is absent, Some s for a string; an "attr" of another shape (int, list, dict: what str(...) of it contains is pyben's and
+     Python's business) is outside the model (None for the whole result).  [fi_padding] is FeedChecker's
+     `"p" in str(self.fileinfo[i].get("attr") or "")`; single-file and v2 / hybrid entries carry no "attr" key (None). *)
 From TF Require Import Lib.Base Lib.Lex Model.Bencode.
 From Coq Require String.
 
@@ -31,6 +35,7 @@ Module CPKeys.
   Definition ck_name : bytes := Eval compute in b "name".
   Definition ck_empty : bytes := [].
   Definition ck_info : bytes := Eval compute in b "info".
+  Definition ck_attr : bytes := Eval compute in b "attr".
 End CPKeys.
 Export CPKeys.
 
@@ -56,12 +61,28 @@ Definition tbl_isfile (t : fs_table) (p : cpath) : bool := match tbl_find t p wi
 Definition tbl_listdir (t : fs_table) (p : cpath) : option (list bytes) :=
   match tbl_find t p with Some (false, es) => Some es | _ => None end.
 
-(* one entry of Checker.fileinfo: {"path": ..., "length": ..., "pieces root": ...} *)
+(* one entry of Checker.fileinfo: {"path": ..., "length": ..., "pieces root": ..., "attr": ...} *)
 Record fileinfo := mk_fi {
   fi_path : cpath;
   fi_length : Z;
-  fi_root : option bytes        (* None: no "pieces root" key / roothash None (v1, empty file) *)
+  fi_root : option bytes;       (* None: no "pieces root" key / roothash None (v1, empty file) *)
+  fi_attr : option bytes        (* None: no "attr" key in the entry, or item.get("attr") is None (no such key in the item) *)
 }.
+
+(* FeedChecker.iter_pieces:  padding = "p" in str(self.fileinfo[i].get("attr") or "") *)
+Definition fi_padding (fi : fileinfo) : bool :=
+  match fi_attr fi with
+  | Some s => existsb (Ascii.eqb "p"%char) s
+  | None => false
+  end.
+
+(* item.get("attr"): Some None = no such key; Some (Some s) = a string; None = another shape (outside the model) *)
+Definition attr_of (item : dict) : option (option bytes) :=
+  match lookup ck_attr item with
+  | None => Some None
+  | Some (BStr s) => Some (Some s)
+  | Some _ => None
+  end.
 
 (* `k in d` *)
 Definition has (k : bytes) (d : dict) : bool :=
@@ -106,16 +127,17 @@ Fixpoint comps_of (l : list value) : option (list bytes) :=
      for i, item in enumerate(self.info["files"]):
          self.total += item["length"]
          base = os.path.join( *item["path"])
-         self.fileinfo[i] = {"path": str(self.root / base), "length": item["length"]}            *)
+         self.fileinfo[i] = {"path": str(self.root / base), "length": item["length"],
+                             "attr": item.get("attr")}                                           *)
 Fixpoint v1_files (root : cpath) (items : list value) : option (list fileinfo) :=
   match items with
   | [] => Some []
   | BDict item :: rest =>
       match lookup ck_length item, lookup ck_path item with
       | Some (BInt n), Some (BList p) =>
-          match comps_of p, v1_files root rest with
-          | Some (c :: cs), Some r => Some (mk_fi (root ++ c :: cs) n None :: r)
-          | _, _ => None                         (* os.path.join() without arguments: TypeError *)
+          match comps_of p, attr_of item, v1_files root rest with
+          | Some (c :: cs), Some a, Some r => Some (mk_fi (root ++ c :: cs) n None a :: r)
+          | _, _, _ => None                      (* os.path.join() without arguments: TypeError *)
           end
       | _, _ => None
       end
@@ -130,9 +152,9 @@ Definition leaf_info (full : cpath) (leaf : value) : option fileinfo :=
   | BDict l =>
       match lookup ck_length l with
       | Some (BInt n) =>
-          if Z.eqb n 0 then Some (mk_fi full n None)
+          if Z.eqb n 0 then Some (mk_fi full n None None)
           else match lookup ck_pieces_root l with
-               | Some (BStr r) => Some (mk_fi full n (Some r))
+               | Some (BStr r) => Some (mk_fi full n (Some r) None)
                | _ => None
                end
       | _ => None
@@ -234,8 +256,8 @@ Definition check_paths (info : dict) (name : bytes) (root : cpath) (root_is_file
                 match lookup ck_empty sub with
                 | Some (BDict leaf) =>
                     match lookup ck_pieces_root leaf with
-                    | Some (BStr r) => Some ([mk_fi root n (Some r)], n)
-                    | None => Some ([mk_fi root n None], n)
+                    | Some (BStr r) => Some ([mk_fi root n (Some r) None], n)
+                    | None => Some ([mk_fi root n None None], n)
                     | Some _ => None
                     end
                 | _ => None
@@ -244,7 +266,7 @@ Definition check_paths (info : dict) (name : bytes) (root : cpath) (root_is_file
             end
         | _ => None
         end
-      else Some ([mk_fi root n None], n)
+      else Some ([mk_fi root n None None], n)
   | Some (Some _) => None                          (* a length that is not an integer: outside *)
   | Some None =>
       if Nat.eqb mv 1 then
